@@ -1,20 +1,35 @@
-(* C15 — SearchEntry::construct keeps every attribute value and classifies it correctly. Pinned statement only. *)
+(* C15 — SearchEntry::construct keeps every attribute value and classifies it correctly. Pinned statements only. *)
 From Coq Require Import List NArith Lia Bool Arith Permutation.
 From Coq.Strings Require Import Byte.
 From L3 Require Import Ber Utf8 Frame Entry.
 Import ListNotations.
 
-(* [enc_entry dn attrs]: the SearchResultEntry a server builds; [construct Utf8.valid]: the model of SearchEntry::construct with the
-   real UTF-8 classifier. For a UTF-8 DN and duplicate-free UTF-8 attribute names: the DN is the server's; each attribute is in exactly
-   one map - the text map with its values in order iff all its values are UTF-8, otherwise the binary map holds a permutation of its
-   values (nothing lost, duplicated or altered); no other key appears. *)
+(* [enc_entry dn attrs]: the SearchResultEntry a server builds from the PartialAttribute elements [attrs] - any number of them, the same
+   description any number of times (repair F41); [vals_of k attrs]: all the values sent under description k, in the order sent;
+   [construct Utf8.valid]: the model of SearchEntry::construct with the real UTF-8 classifier. For a UTF-8 DN and UTF-8 attribute
+   descriptions: the DN is the server's; each attribute is in exactly one map - the text map with its values in order iff all its values
+   are UTF-8, otherwise the binary map holds a permutation of its values (nothing lost, duplicated or altered); no other key appears. *)
 Theorem c15_construct : forall dn attrs,
-  Utf8.valid dn = true -> NoDup (map fst attrs) -> Forall (fun a => Utf8.valid (fst a) = true) attrs ->
+  Utf8.valid dn = true -> Forall (fun a => Utf8.valid (fst a) = true) attrs ->
   exists e, construct Utf8.valid (enc_entry dn attrs) = Ok e /\ e_dn e = dn /\
-    (forall a, In a attrs ->
-        (all_text Utf8.valid (snd a) = true  -> mget (fst a) (e_attrs e) = Some (snd a) /\ mget (fst a) (e_bin e) = None) /\
-        (all_text Utf8.valid (snd a) = false -> mget (fst a) (e_attrs e) = None /\
-                                     exists bs, mget (fst a) (e_bin e) = Some bs /\ Permutation bs (snd a))) /\
+    (forall k, In k (map fst attrs) ->
+        (all_text Utf8.valid (vals_of k attrs) = true  -> mget k (e_attrs e) = Some (vals_of k attrs) /\ mget k (e_bin e) = None) /\
+        (all_text Utf8.valid (vals_of k attrs) = false -> mget k (e_attrs e) = None /\
+                                     exists bs, mget k (e_bin e) = Some bs /\ Permutation bs (vals_of k attrs))) /\
     (forall k, ~ In k (map fst attrs) -> mget k (e_attrs e) = None /\ mget k (e_bin e) = None).
 Proof. exact Entry.c15. Qed.
+(* when no description repeats, [vals_of] is the attribute's own value list *)
+Theorem c15_vals_of_nodup : forall attrs a, NoDup (map fst attrs) -> In a attrs -> vals_of (fst a) attrs = snd a.
+Proof. exact Entry.vals_of_nodup. Qed.
+(* F41 as found: member: [a, b] then member: [c] yields [c]; member: [a] then member: [ff] leaves the attribute in both maps *)
+Theorem c15_refuted_F41 :
+  let lost := enc_entry [x63] [([x6d], [[x61]; [x62]]); ([x6d], [[x63]])] in
+  let both := enc_entry [x63] [([x6d], [[x61]]); ([x6d], [[xff]])] in
+  construct_gen Utf8.valid false lost = Ok {| e_dn := [x63]; e_attrs := [([x6d], [[x63]])]; e_bin := [] |} /\
+  construct Utf8.valid lost = Ok {| e_dn := [x63]; e_attrs := [([x6d], [[x61]; [x62]; [x63]])]; e_bin := [] |} /\
+  construct_gen Utf8.valid false both = Ok {| e_dn := [x63]; e_attrs := [([x6d], [[x61]])]; e_bin := [([x6d], [[xff]])] |} /\
+  construct Utf8.valid both = Ok {| e_dn := [x63]; e_attrs := []; e_bin := [([x6d], [[xff]; [x61]])] |}.
+Proof. exact Entry.c15_refuted_F41. Qed.
 Print Assumptions c15_construct.
+Print Assumptions c15_vals_of_nodup.
+Print Assumptions c15_refuted_F41.
